@@ -222,7 +222,8 @@ def run_pipeline(case, ctx):
             new.versions = stg.versions | cur_version
             if stg.segy_header is not None:
                 sh = bytearray(stg.segy_header)
-                sh[3220:3222] = struct.pack(">H", len(new.samples))
+                if len(new.samples) <= 0xFFFF:     # (a 16-bit field: longer traces cannot be stated in it)
+                    sh[3220:3222] = struct.pack(">H", len(new.samples))
                 new.segy_header = bytes(sh)
             stg, path = new, nxt
             shape.append("crop")
@@ -520,7 +521,8 @@ def run_gate_op(case, ctx):
             c.close()
         want, _ = stages.crop_stage(src, box)
         sh = bytearray(T.raw[4096:4096 + 3600])
-        sh[3220:3222] = struct.pack(">H", len(want.samples))
+        if len(want.samples) <= 0xFFFF:     # (a 16-bit field: longer traces cannot be stated in it)
+            sh[3220:3222] = struct.pack(">H", len(want.samples))
         want.segy_header = bytes(sh)
     else:
         c = SgzConverter(path)
@@ -535,8 +537,26 @@ def run_gate_op(case, ctx):
             "labels": ["gate-op:" + case["op"], "gate-op-stride-odd" if s.array_len % 512 else "gate-op-stride512"]}
 
 
+def run_gate_pair(case, ctx):
+    """Replay of one failing item of gate_pairs."""
+    from seismic_zfp.version import SeismicZfpVersion as V
+    if "gate" in case:
+        gate_e = {"0.1.6": spec.V_0_1_6, "0.2.1": spec.V_0_2_1}[case["gate"]]
+        if V(case["gate"]).encoding != gate_e:
+            raise Violation("version-gate", f"V('{case['gate']}').encoding {V(case['gate']).encoding} != {gate_e}")
+        return {"sig": None, "labels": ["gate-pair"]}
+    ea, eb = case["ea"], case["eb"]
+    a, b = V(ea), V(eb)
+    if (a > b) != (ea > eb) or (a == b) != (ea == eb):
+        raise Violation("version-gate", f"encodings {ea},{eb}: order wrong")
+    for gate_s, gate_e in (("0.1.6", spec.V_0_1_6), ("0.2.1", spec.V_0_2_1)):
+        if (a > V(gate_s)) != (ea > gate_e):
+            raise Violation("version-gate", f"encodings {ea},{eb}: order wrong")
+    return {"sig": None, "labels": ["gate-pair"]}
+
+
 def run_case(case, ctx):
-    return {"pipeline": run_pipeline, "version_pairs": run_version_pair, "version_strings": run_version_string,
+    return {"pipeline": run_pipeline, "gate": run_gate_pair, "version_pairs": run_version_pair, "version_strings": run_version_string,
             "gates": run_gate_file, "gate_ops": run_gate_op, "version_enum": run_version_tuple}[case["check"]](case, ctx)
 
 
